@@ -42,6 +42,7 @@ type Violation struct {
 	Observed string          `json:"observed"`
 	Features []string        `json:"features"`
 	Runs     int             `json:"confirmed_runs"`
+	Count    int             `json:"occurrences_in_run,omitempty"` // executions of this run with the same clause+features
 }
 
 // V builds a violation; in is marshalled to JSON and is what replay receives.
@@ -319,6 +320,37 @@ func (r *Run) Scenario(name string, bounds interface{}, nShards int, body func(s
 	res := ScenarioResult{Name: name, Evals: total.Evals, States: total.States, Transitions: total.Transitions,
 		Traces: total.Traces, Nontrivial: total.Nontrivial, MaxDepth: total.MaxDepth, Classes: total.Classes,
 		Exhaustive: exhaustive, Bounds: bounds, WallS: time.Since(t0).Seconds()}
+	// keep a deterministic selection: per clause+features the 3 smallest inputs (workers each kept up to 3)
+	sort.SliceStable(total.Viol, func(i, j int) bool {
+		a, b := total.Viol[i], total.Viol[j]
+		ka, kb := a.Clause+"|"+strings.Join(a.Features, ","), b.Clause+"|"+strings.Join(b.Features, ",")
+		if ka != kb {
+			return ka < kb
+		}
+		if len(a.Input) != len(b.Input) {
+			return len(a.Input) < len(b.Input)
+		}
+		return string(a.Input) < string(b.Input)
+	})
+	{
+		kept := total.Viol[:0]
+		per := map[string]int{}
+		var last string
+		for _, v := range total.Viol {
+			k := v.Clause + "|" + strings.Join(v.Features, ",")
+			id := k + "|" + string(v.Input)
+			if id == last {
+				continue
+			}
+			last = id
+			if per[k] < 3 {
+				per[k]++
+				v.Count = total.violCount[k]
+				kept = append(kept, v)
+			}
+		}
+		total.Viol = kept
+	}
 	// classify violations
 	kf := loadKnown()
 	for _, v := range total.Viol {
@@ -328,7 +360,9 @@ func (r *Run) Scenario(name string, bounds interface{}, nShards int, body func(s
 		}
 		if id := kf.match(v); id != "" {
 			r.mu.Lock()
-			r.known[id]++
+			if r.known[id] < v.Count {
+				r.known[id] = v.Count
+			}
 			r.knownViol = append(r.knownViol, v)
 			r.mu.Unlock()
 			res.Known++
